@@ -167,3 +167,8 @@ _add_family(globals(), _ru, 'reuseupd', _ru.oracle, share=0.04)
 # a process deleted or replaced while its update is in flight: that update never arrives, the newcomer starts afresh
 from harness import deadwriter as _dw                   # noqa: E402
 _add_family(globals(), _dw, 'deadwriter', _dw.oracle, share=0.04)
+
+
+# an update condition over a collection whose members are deleted, moved away and added
+from harness import gonecond as _gc                     # noqa: E402
+_add_family(globals(), _gc, 'gonecond', _gc.oracle, share=0.04)
